@@ -304,6 +304,8 @@ pub fn run(cfg: &Cfg) -> Report {
             }
         }
     }
+    // random larger 2D symbols (7-12 chambers): structure, abelianisation, and the deeper clauses when small enough
+    symbols.extend(gen::random_larger_2d_symbols(seed, cfg.tier.pick(2_000, 30_000), cfg.tier.pick(12, 20), &[1, 1, 1, 2, 2, 3, 4, 6]));
     let ctx = par_items(cfg, &symbols, |ctx, k, m| {
         let mut rng = Rng::stream(seed, 0x09_0000 + k as u64);
         judge(ctx, m, k % 2 == 1, depth);
